@@ -1,12 +1,13 @@
 \* C10 leg A thorough: worlds of <= 2 series (names n0 n1, values a b absent), matcher sets of <= 2 from
 \* 3 names (n0, n1 and the unused zz) x (EQ/NEQ x 3 literals + RE/NRE x {.*, .+, 4 alternations, 2 classes}),
-\* every lazy choice; histories of <= 3 queries + evictions over single = and != matchers on n0
+\* every lazy choice; histories of <= 3 queries x 3 time ranges + evictions over single = / != matchers on n0 and pairs n0= , n1=
 SPECIFICATION Spec
 CONSTANTS MaxSeries = 2
           MaxMatchers = 2
           MaxHistory = 3
           Lits = {"", "a", "c"}
           MatcherNames = {"n0", "n1", "zz"}
+          HistLits = {"", "a", "c"}
           HistNames = {"n0"}
           HistTypes = {"EQ", "NEQ"}
           SetAlts <- SetAltsThorough
